@@ -417,6 +417,11 @@ func runRoundTrip(m *mon.M, c *Case) {
 		}
 		return
 	}
+	if (err != nil || !equal) && yamlBlockScalarFeature(c) {
+		// one failure mode of the YAML library's emitter, whatever the kind that carries the text
+		m.Violate("roundtrip-broken/yaml/multiline-text-with-leading-blank", fmt.Sprintf("yaml round trip of %s: a multi-line text starting with a blank or a line break is written as a block scalar the consumer misreads (err=%v)\nproduced %s\n got  %#v\n want %#v", c.Kind, err, short(w.buf), got, v), c)
+		return
+	}
 	if err != nil {
 		m.Violate("spurious-error/"+c.Codec+"/consume-own-output", fmt.Sprintf("%s Consume of its own output for %s failed on a clean stream: %v\noutput: %s", c.Codec, c.Kind, err, short(w.buf)), c)
 		return
@@ -426,6 +431,22 @@ func runRoundTrip(m *mon.M, c *Case) {
 		return
 	}
 	m.Class("roundtrip-ok")
+}
+
+// yamlBlockScalarFeature reports whether the case is a YAML round trip whose text (or one of the
+// comma-separated pieces the value builders cut it into) spans several lines and starts with a
+// space, a tab or a line break.
+func yamlBlockScalarFeature(c *Case) bool {
+	if c.Codec != "yaml" {
+		return false
+	}
+	s := string(c.content())
+	for _, p := range append([]string{s}, pieces(s)...) {
+		if strings.ContainsAny(p, "\n\r\u0085\u2028\u2029") && p != "" && strings.ContainsRune(" \t\n\r\u0085\u2028\u2029", []rune(p)[0]) {
+			return true
+		}
+	}
+	return false
 }
 
 // ---- structured consumers: totality over destinations ----
@@ -477,7 +498,7 @@ func runDiscard(m *mon.M, c *Case) {
 			m.Violate("consume-panic/discard", fmt.Sprintf("DiscardConsumer panicked: %v\n%s", pv, st), c)
 			return
 		}
-		if err != nil || r.reads > 0 || r.closes > 0 || (d.get != nil && !bytes.Equal(d.get(), []byte(c.Pre))) {
+		if err != nil || r.reads > 0 || r.closes > 0 || (d.get != nil && strings.HasPrefix(c.Kind, "*") && !bytes.Equal(d.get(), []byte(c.Pre))) {
 			m.Violate("discard-touched/consume", fmt.Sprintf("DiscardConsumer: err=%v reads=%d closes=%d destination now %s (was %s)", err, r.reads, r.closes, short(get(d)), short([]byte(c.Pre))), c)
 		}
 		return
